@@ -262,15 +262,18 @@ func instrDominatesDeep(a, b ssa.Instruction) bool {
 		if c == nil {
 			return false
 		}
-		if !mustExecute(cur) {
-			return false
-		}
+		inner := cur
 		cur = c
 		if lb := liftTo(b, cur.Parent()); lb != nil {
 			if lb == cur {
 				return false // both inside the same call but in different helpers below it: handled by the first two cases at a deeper level
 			}
-			return localDominates(cur, lb)
+			// only the helper's returns from which lb can be reached count: when lb is behind `err == nil`
+			// of this call, the returns with a non-nil error do not
+			return mustExecuteBefore(inner, c, lb) && localDominates(cur, lb)
+		}
+		if !mustExecute(inner) {
+			return false
 		}
 	}
 	return false
@@ -421,7 +424,7 @@ var noParamLook int
 // return or, when the last result is an error, its single successful return.  (Not part of strip():
 // rules also identify calls by their callee.)
 func resultOf(v ssa.Value) ssa.Value {
-	for i := 0; i < 4; i++ {
+	for i := 0; i < 6; i++ {
 		v = strip(v)
 		idx := 0
 		var call *ssa.Call
@@ -431,6 +434,16 @@ func resultOf(v ssa.Value) ssa.Value {
 		case *ssa.Extract:
 			if c, ok := x.Tuple.(*ssa.Call); ok {
 				call, idx = c, x.Index
+			}
+		case *ssa.UnOp:
+			// a local captured by a closure lives in a cell: the value it is assigned once
+			if x.Op == token.MUL {
+				if cell := cellOf(x.X); cell != nil {
+					if sts := storesToCell(cell); len(sts) == 1 {
+						v = sts[0].Val
+						continue
+					}
+				}
 			}
 		}
 		if call == nil {
@@ -523,4 +536,51 @@ func boundLiteral(call *ssa.Call) *ssa.Function {
 		}
 	}
 	return nil
+}
+
+// mustExecuteBefore: in is executed on every path through its function (the helper called at `call`) that
+// returns in a way compatible with what is known where `user` executes: when user is dominated by the
+// call's error result being nil, only the helper's returns with a nil error are considered.
+func mustExecuteBefore(in ssa.Instruction, call *ssa.Call, user ssa.Instruction) bool {
+	fn := in.Parent()
+	res := fn.Signature.Results()
+	errIdx := -1
+	if res.Len() > 0 && types.Identical(res.At(res.Len()-1).Type(), types.Universe.Lookup("error").Type()) {
+		errIdx = res.Len() - 1
+	}
+	onlySuccess := false
+	if errIdx >= 0 {
+		for _, g := range GuardsLocal(user) {
+			f := factOf(g)
+			if f.Op != token.EQL || !isNilConst(f.Y) {
+				continue
+			}
+			v := stripNoParam(f.X)
+			if e, ok := v.(*ssa.Extract); ok && e.Tuple == ssa.Value(call) && e.Index == errIdx {
+				onlySuccess = true
+			}
+			if v == ssa.Value(call) && res.Len() == 1 {
+				onlySuccess = true
+			}
+		}
+	}
+	for _, b := range fn.Blocks {
+		if b == fn.Recover || len(b.Instrs) == 0 {
+			continue
+		}
+		r, ok := b.Instrs[len(b.Instrs)-1].(*ssa.Return)
+		if !ok {
+			continue
+		}
+		if onlySuccess && !isNilConst(retResult(r, errIdx)) {
+			continue
+		}
+		if b == in.Block() {
+			continue
+		}
+		if !in.Block().Dominates(b) {
+			return false
+		}
+	}
+	return true
 }
